@@ -301,6 +301,9 @@ func genID(t *rapid.T, i int) tla.Value {
 }
 
 func runHistory(t *rapid.T, k crdtKind) {
+	if vstat.OverBudget() {
+		return
+	}
 	vstat.Case()
 	n := rapid.IntRange(2, 5).Draw(t, "replicas")
 	ids := make([]tla.Value, n)
